@@ -31,7 +31,7 @@ VALUES = [b"1", b"2", b"3"]
 VALUES_X = VALUES + [b"", b"x, y", b"v\xff", b" sp ", b"a=b; c", b"\xc3\xa9"]
 
 TCHAR = set(b"!#$%&'*+-.^_`|~0123456789abcdefghijklmnopqrstuvwxyzABCDEFGHIJKLMNOPQRSTUVWXYZ")
-PYWS = b" \t\n\r\x0b\x0c"
+PYWS = b" \t\r\n"
 
 
 def canon(n: bytes) -> bytes:
